@@ -43,6 +43,7 @@ type Solver struct {
 	priUnknown int
 	Rescued    int
 	Respawns   int
+	qAtSwap    int
 }
 
 func fallbackKind(kind string) string {
@@ -190,7 +191,7 @@ func (s *Solver) Check(extra *Term) string {
 			} else {
 				s.Unsat++
 			}
-			if s.priUnknown%3 == 0 {
+			if s.priUnknown >= 3 && s.priUnknown*10 >= s.Queries-s.qAtSwap {
 				// this kind of solver keeps failing on this job's queries: swap roles
 				s.respawn(fallbackKind(s.kind))
 			}
@@ -316,6 +317,9 @@ func (s *Solver) respawn(kind string) bool {
 	if kind != s.kind && s.fb != nil {
 		s.fb.Close()
 		s.fb = nil
+	}
+	if kind != s.kind {
+		s.qAtSwap, s.priUnknown = s.Queries, 0
 	}
 	s.kind = kind
 	s.cmd, s.in, s.out = cmd, in, bufio.NewReaderSize(out, 1<<20)
